@@ -15,7 +15,7 @@ FUZZ_ACTIONS = ["LoadConst", "LoadInt", "LoadLongInt", "LoadFloat", "LoadBytes",
 def run(ctx):
     rng = random.Random(ctx.seed + 13)
     r1 = sc.model_check(ctx, "MCSerFuzz", "MCSerFuzz.cfg" if ctx.quick else "MCSerFuzz4.cfg", FUZZ_ACTIONS)
-    r2 = sc.model_check(ctx, "MCSerFuzz", "MCSerFuzzTok3.cfg" if ctx.quick else "MCSerFuzzTok4.cfg", FUZZ_ACTIONS, timeout=3000)
+    r2 = sc.model_check(ctx, "MCSerFuzz", "MCSerFuzzTok3.cfg", FUZZ_ACTIONS, timeout=3000)
     tokens = sc.tlc_tokens(ctx)
     inputs = []  # (bytes, prefix?)
     # (a) TLC's structured soups, replayed: all of length <= 2 tokens, sampled (quick) / all (thorough) of length 3
